@@ -96,6 +96,9 @@ func derefOutcome(v types.MalType, e error) string {
 }
 
 // one scenario; deterministic=true replays the model's counterexample window through a gate
+// futBornDead: the scenario in which the context the future is created under ends before its body starts
+var futBornDead bool
+
 func runFutureScenario(rec *futRecorder, rnd *rand.Rand, body string, deterministic bool, deadctx bool, cancelrace bool, pollrace bool) error {
 	ns, probe, err := NewLoadedEnv()
 	if err != nil {
@@ -137,7 +140,11 @@ func runFutureScenario(rec *futRecorder, rnd *rand.Rand, body string, determinis
 	}
 	ctx, cancelAll := context.WithCancel(context.Background())
 	defer cancelAll()
-	rec.emit(FutEvent{Ev: "begin", Body: body})
+	bornDead := 0
+	if futBornDead {
+		bornDead = 1
+	}
+	rec.emit(FutEvent{Ev: "begin", Body: body, Val: bornDead})
 	read := func(src string) types.MalType {
 		ast, rerr := lisp.READ(src, nil, ns)
 		if rerr != nil {
@@ -152,7 +159,13 @@ func runFutureScenario(rec *futRecorder, rnd *rand.Rand, body string, determinis
 	checked := make(chan struct{})
 	queried := make(chan struct{})
 	var checkedOnce sync.Once
-	if cancelrace {
+	if futBornDead {
+		rec.gate = func(point string) {
+			if point == "future.start" {
+				<-release // hold the body before it starts evaluating
+			}
+		}
+	} else if cancelrace {
 		// the model's P5 counterexample of the design whose cancel checks and marks in two steps: the canceller is
 		// held between its check and its mark while the body completes, a deref returns and future-cancelled? is
 		// asked.  (Where check-and-mark is one critical section the hook is reached under the future's lock: the body
@@ -190,7 +203,9 @@ func runFutureScenario(rec *futRecorder, rnd *rand.Rand, body string, determinis
 	}
 	rec.mu.Unlock()
 	defer once.Do(func() { close(release) })
-	fv, e := lisp.EVAL(ctx, read("(def f "+futBodies[body]+")"), ns)
+	createCtx, endCreator := context.WithCancel(ctx)
+	defer endCreator()
+	fv, e := lisp.EVAL(createCtx, read("(def f "+futBodies[body]+")"), ns)
 	if e != nil {
 		return e
 	}
@@ -208,7 +223,23 @@ func runFutureScenario(rec *futRecorder, rnd *rand.Rand, body string, determinis
 		}
 		rec.emit(ev)
 	}
-	if cancelrace {
+	if futBornDead {
+		// the evaluation that created the future is over and its context has ended before the body got to run:
+		// the body runs (once) under an ended context; whatever its outcome, derefs return it and, as soon as one
+		// has returned, future-done? is true (P4); future-cancel afterwards finds it completed
+		endCreator()
+		op(1, "done?", "(future-done? f)", ctx)
+		once.Do(func() { close(release) })
+		dctx, dcancel := context.WithTimeout(ctx, 5*time.Second)
+		op(1, "deref", "@f", dctx)
+		dcancel()
+		op(1, "done?", "(future-done? f)", ctx)
+		op(1, "cancelled?", "(future-cancelled? f)", ctx)
+		op(2, "deref", "@f", ctx)
+		op(1, "cancel", "(future-cancel f)", ctx)
+		op(1, "done?", "(future-done? f)", ctx)
+		op(1, "cancelled?", "(future-cancelled? f)", ctx)
+	} else if cancelrace {
 		cdone := make(chan struct{})
 		go func() { op(2, "cancel", "(future-cancel f)", ctx); close(cdone) }()
 		select {
@@ -441,6 +472,11 @@ func cmdFutures(args []string) {
 	for i := 0; i < 8; i++ {
 		run(bodies[i%len(bodies)], true, true, true, true) // predicates polled while another thread cancels
 	}
+	futBornDead = true
+	for _, b := range bodies {
+		run(b, false) // the creator's context ends before the body starts
+	}
+	futBornDead = false
 	for i := 0; i < *n; i++ {
 		run(bodies[rnd.Intn(len(bodies))], false)
 	}
